@@ -808,9 +808,13 @@ int cif_parse_internal(struct scanner_s *scanner, int not_utf8, const char *extr
 
                 if (scanner->cif_version == 1) {
                     if (scanned_bom) {
-                        /* error: disallowed CIF 1 character */
-                        FAILURE_VARIABLE = scanner->error_callback(CIF_DISALLOWED_CHAR, 1, 0,
-                                scanner->next_char - 1, 1, scanner->user_data);
+                        /*
+                         * error: disallowed CIF 1 character.  The BOM has been consumed, and the buffer may have been reset
+                         * since, so it is reported from a copy rather than from the position before the current one.
+                         */
+                        const UChar bom = UCHAR_BOM;
+
+                        FAILURE_VARIABLE = scanner->error_callback(CIF_DISALLOWED_CHAR, 1, 0, &bom, 1, scanner->user_data);
                         /* recover, if necessary, by ignoring the problem */
                     }
                     SET_V1(scanner);
